@@ -55,6 +55,19 @@ TEMPLATES = [
     "@media (min-width: {a}) {{ a {{ b: c }} }}", "@supports ({a}: {b}) {{ a {{ b: c }} }}", "@include {a};", "@function f($a...) {{ @return $a }} a {{ b: f({a}...) }}",
     "@mixin m($a: {a}, $b...) {{ x: $a $b }} a {{ @include m({b}, $c: 1) }}", "a {{ b: if({a}, 1, 2) }}", "a {{ b: call(get-function(\"{a}\")) }}",
     "a {{ /* {a} #{{1 +}} */ }}", "/*" + " " * 90 + "x\n y */ a {{ b: c }}", "a {{ b: c; " + " " * 100 + "/* x\n" + " " * 95 + "y */ }}",
+    # error rendering: errors that carry two source positions, in every order of declaration and use
+    "@function f(){{@return g(1,2)}}\n\n@function g($a){{@return $a}}\na{{b:f()}}",
+    "@function g($a){{@return $a}}\n@function f(){{@return g({a},{b})}}\n\n\na{{b:f()}}",
+    "@mixin m(){{@include n(1,2)}}\n@mixin n($a){{x:$a}}\n\na{{@include m}}",
+    "a{{@include m($z: 1)}}\n\n\n@mixin m($a){{x:$a}}",
+    "@function f($a, $b: 2){{@return $a}}\n\n\n\na{{\n\n b:f($c: {a})}}",
+    "@function f($a){{@return $a}}\na{{b:f()}}", "@mixin m($a...){{@content($a...)}} a{{@include m(1) using ($x, $y){{b:$x}}}}",
+    "a{{b: {a}{b}; c: $undefined}}", "a{{b: foo.bar({a})}}", "@use \"sass:math\" as m;\n\na{{b: m.div({a})}}", "@use \"sass:nope\"; a{{b:c}}",
+    "a{{\n\n\n  b: 1 +\n\n {a}px * (}}", "@error {a} {b};", "a{{@error \"x\\a y\"}}", "\n\n\n\ta{{\tb:\t$x}}", "a{{b:c}}\r\n@include x;\r\n",
+    "é{{ü: $ö}}", "/* é */ a{{b: \"€\" + $x}}", "a{{b: nth((1 2), {a})}}\n" * 3,
+    # selectors and pseudos with unusual names
+    "a:-custom{{b:c}}", "a::-x, :--y({a}), a:-b-c, :-moz-any(a, b), ::-webkit-x(1) {{b:c}}", "a:{a}{{b:c}}", ":not(:-x(a)){{b:c}}",
+    "a:nth-child({a}n + {b} of .x){{b:c}}", "a[b{a}=c i], [|a], [*|a~=\"x\"], a|b, *|*, |a {{b:c}}", "#{a}, .{a}, %{a} {{b:c}}",
     "@each $a, $b in ({a}, {b}) {{ x {{ y: $a $b }} }}", "@while {a} < {b} {{ }} a{{b:c}}", "@if {a} {{ a{{b:c}} }} @else if {b} {{ }}",
     "$x: {a} !default !global; a {{ b: $x }}", "a {{ --x: {a}; b: var(--x, {b}) }}", "@charset \"{a}\"; a{{b:c}}", "a {{ b: U+{a}-{b} }}",
     "a {{ b: math.log({a}, {b}) }}", "@use \"sass:math\"; a {{ b: math.pow({a}, {b}) math.sqrt({a}) math.hypot({a}, {b}) math.atan2({a}, {b}) }}",
@@ -140,7 +153,8 @@ def gen_scss(rng, depth):
         if k == 3:
             return "$v: " + val(3) + rng.choice(["", " !default", " !global"]) + ";"
         if k == 4:
-            return rng.choice(["a", "&b", "& > c", ".x, y", "%p", ":not(&)", "&-s", "*", "[a=b]", "#{" + val(2) + "}"]) + " { " + " ".join(stmt(d - 1) for _ in range(rng.randint(0, 3))) + " }"
+            return rng.choice(["a", "&b", "& > c", ".x, y", "%p", ":not(&)", "&-s", "*", "[a=b]", "#{" + val(2) + "}",
+                               "a:-c", "::-d", ":--e(1)", "a:hover:-f-g", "&:is(b, :-h)", "a ~ b + c", "> d", "&__e", "a|b", "[x|=\"y\" s]"]) + " { " + " ".join(stmt(d - 1) for _ in range(rng.randint(0, 3))) + " }"
         if k == 5:
             return "@media " + rng.choice(["screen", "(min-width: " + val(2) + ")", "#{" + val(2) + "}"]) + " { " + stmt(d - 1) + " }"
         if k == 6:
@@ -152,7 +166,9 @@ def gen_scss(rng, depth):
         if k == 9:
             return "@mixin m($a: 1, $r...) { " + stmt(d - 1) + " @content; } @include m(" + val(2) + ") { " + stmt(d - 1) + " }"
         if k == 10:
-            return "@function f($a) { @return " + val(3) + "; } " + stmt(d - 1)
+            decl = "@function f($a" + rng.choice(["", ", $b: 1", ", $r..."]) + ") { @return " + val(3) + "; }"
+            use = "q { r: f(" + rng.choice(["", "1", "1, 2", "1, 2, 3", "$z: 1", "1, $a: 2", "(1 2)..."]) + "); }"
+            return rng.choice([decl + "\n" + use, "@function w() { @return f(" + rng.choice(["", "1, 2, 3", "$q: 1"]) + "); }\n\n" + decl + "\n" + "q { r: w(); }"]) + " " + stmt(d - 1)
         if k == 11:
             return "/* c #{" + val(2) + "} */"
         return "@at-root " + rng.choice(["", "a "]) + "{ " + stmt(d - 1) + " }"
